@@ -73,6 +73,7 @@ type base struct {
 	data    []byte
 	fields  []pdfw.Field
 	desc    string
+	forms   map[string]int // formsBase: object numbers of the form XObjects
 }
 
 func splice(b []byte, start, end int, repl []byte) []byte {
@@ -731,6 +732,57 @@ func imageBase(c *fw.Ctx, i int) *base {
 	return &base{id: fmt.Sprintf("pdfimg%d", i), kind: "pdf", ext: "pdf", data: data, fields: fields, desc: fmt.Sprintf("image XObjects %+v / %+v", pages[0].Images, pages[1].Images)}
 }
 
+// formsBase: a page drawing a tree of nested form XObjects; beside the generic
+// catalogue it gets every pair (child reference of a form retargeted, incl. to
+// the form itself / an ancestor) x (a string of a form's content left unclosed).
+func formsBase(c *fw.Ctx, i int) *base {
+	r := c.Rand("base", "pdfforms", i)
+	tk := fw.NewTokens(r)
+	data, fields, forms := pdfw.FormsPDF(r, tk.Next)
+	return &base{id: fmt.Sprintf("pdfforms%d", i), kind: "pdf", ext: "pdf", data: data, fields: fields, forms: forms, desc: "nested form XObjects page -> Fm1 -> {Fm2, Fm3 -> {Fm4, Fm5}, Fm6}"}
+}
+
+var contentString = regexp.MustCompile(`\([^()\\]*\)`)
+
+// formPairFaults: see formsBase.
+func formPairFaults(b *base, singles []edit, emit func(desc string, data []byte)) {
+	isForm := map[int]bool{}
+	for _, n := range b.forms {
+		isForm[n] = true
+	}
+	var retargets, breaks []edit
+	for _, e := range singles {
+		if strings.HasPrefix(e.desc, "ref ") && isFormRefField(b, e, isForm) {
+			retargets = append(retargets, e)
+		}
+	}
+	for _, f := range b.fields {
+		if f.Kind != "streamdata" || !isForm[f.Obj] {
+			continue
+		}
+		for _, loc := range contentString.FindAllIndex(b.data[f.Start:f.End], -1) {
+			at := f.Start + loc[1] - 1
+			breaks = append(breaks, edit{start: at, end: at + 1, repl: []byte(" "), desc: fmt.Sprintf("content-string-unclose obj %d@%d", f.Obj, at)})
+		}
+	}
+	for _, br := range breaks {
+		emit(br.desc, applyEdits(b.data, []edit{br}))
+		for _, rt := range retargets {
+			emit(rt.desc+" ++ "+br.desc, applyEdits(b.data, []edit{rt, br}))
+		}
+	}
+}
+
+// isFormRefField: the edit rewrites a reference that lives inside a form object.
+func isFormRefField(b *base, e edit, isForm map[int]bool) bool {
+	for _, f := range b.fields {
+		if f.Kind == "ref" && f.Start <= e.start && e.start < f.End {
+			return isForm[f.Obj]
+		}
+	}
+	return false
+}
+
 func htmlBase(c *fw.Ctx, i int) *base {
 	r := c.Rand("base", "html", i)
 	tok := fw.NewTokens(r)
@@ -794,6 +846,7 @@ func buildCases(c *fw.Ctx) []*Case {
 	for i := 0; i < c.N(1, 4); i++ {
 		bases = append(bases, imageBase(c, i))
 	}
+	bases = append(bases, formsBase(c, 0))
 	for i := 0; i < c.N(1, 3); i++ {
 		bases = append(bases, htmlBase(c, i))
 	}
@@ -828,6 +881,9 @@ func buildCases(c *fw.Ctx) []*Case {
 					}
 				}
 			})
+			if b.forms != nil {
+				formPairFaults(b, singles, emit)
+			}
 			// double applications of the catalogue: half of the pairs combine a number
 			// that lies about a size or count with a structural break (retargeted
 			// reference, dropped / duplicated object, unbalanced delimiter), the rest
